@@ -60,6 +60,19 @@ theorem released (st : State) (addr : String) (seq : BitVec 24) (env : Env) :
 theorem after_release_first_copy (st : State) (addr : String) (seq : BitVec 24) (env : Env) :
     alGet (step st (.rxTimeout addr seq) env).1.rx (addr, seq) = none := (released st addr seq env).1
 
+/-- the retained response survives everything that is not its own expiry: in particular the expiry of a TRANSMIT
+    transaction that happens to carry the same "<address>-<sequence number>" (the UPF numbers its own requests 0, 1, 2, …
+    towards the same address) -/
+theorem retained_survives_tx_timeout (st : State) (addr : String) (seq : BitVec 24) (env : Env) (rx : Rx)
+    (h : alGet st.rx (addr, seq) = some rx) (addr' : String) (seq' : BitVec 24) :
+    alGet (step st (.txTimeout addr' seq') env).1.rx (addr, seq) = some rx := by
+  have : (step st (.txTimeout addr' seq') env).1.rx = st.rx := by
+    simp only [step]
+    split
+    · rfl
+    · split <;> rfl
+  rw [this]; exact h
+
 /-! ### retention window arithmetic (transaction.go:122-138) -/
 
 /-- `RetransTimeout * (time.Duration(MaxRetrans) + 1)`: `MaxRetrans` is a `uint8`, widened before the addition -/
